@@ -521,6 +521,7 @@ def _sap_broadphase(
         wp.static(_broadphase_filter(opt_broadphase_filter, ngeom_aabb, ngeom_rbound, ngeom_margin, ngeom_gap))(
           geom_aabb, geom_rbound, geom_margin, geom_gap, geom_xpos_in, geom_xmat_in, geom1, geom2, worldid
         )
+        or pairid[0] >= 0  # explicit <pair>: its own margin/gap apply, the narrowphase decides
         or pairid[1] >= 0
       ):
         _add_geom_pair(
@@ -755,6 +756,7 @@ def _nxn_broadphase(
       wp.static(_broadphase_filter(opt_broadphase_filter, ngeom_aabb, ngeom_rbound, ngeom_margin, ngeom_gap))(
         geom_aabb, geom_rbound, geom_margin, geom_gap, geom_xpos_in, geom_xmat_in, geom1, geom2, worldid
       )
+      or nxn_pairid[elementid][0] >= 0  # explicit <pair>: its own margin/gap apply, the narrowphase decides
       or nxn_pairid[elementid][1] >= 0
     ):
       _add_geom_pair(
